@@ -12,10 +12,12 @@ import (
 	"math/rand"
 	"net"
 	"net/url"
+	"os"
 	"strconv"
 	"strings"
 	"sync"
 	"sync/atomic"
+	"syscall"
 	"time"
 
 	martian "github.com/google/martian/v3"
@@ -1338,6 +1340,25 @@ type ucase struct {
 	Transport string `json:"transport"`
 	Route     string `json:"route"` // direct: target cannot be dialled; downstream: the downstream proxy cannot be dialled
 	Early     int    `json:"early"`
+	// DialErr is how the dial fails: "" (pipe: refused by the harness dialer, tcp: a
+	// closed port, the kernel's ECONNREFUSED) or an error returned at once by
+	// the configured dial function: refused | generic | timeout | dns | unreachable
+	DialErr string `json:"dial_err,omitempty"`
+}
+
+// dialError builds the error a failing dial function returns.
+func dialError(kind, network, addr string) error {
+	switch kind {
+	case "timeout": // what a dial to a host that drops SYNs ends with
+		return &net.OpError{Op: "dial", Net: network, Err: os.ErrDeadlineExceeded}
+	case "dns":
+		return &net.OpError{Op: "dial", Net: network, Err: &net.DNSError{Err: "no such host", Name: addr, IsNotFound: true}}
+	case "unreachable":
+		return &net.OpError{Op: "dial", Net: network, Err: os.NewSyscallError("connect", syscall.ENETUNREACH)}
+	case "generic":
+		return errors.New("dial " + addr + ": tunnel provider unavailable")
+	}
+	return &net.OpError{Op: "dial", Net: network, Err: os.NewSyscallError("connect", syscall.ECONNREFUSED)}
 }
 
 func closedPort() string {
@@ -1362,7 +1383,7 @@ func runUnreachable(r *vh.Run, c ucase) {
 		lis = pl
 		p.SetDial(func(n, a string) (net.Conn, error) {
 			atomic.AddInt32(&dials, 1)
-			return nil, &net.OpError{Op: "dial", Net: n, Err: errors.New("connection refused")}
+			return nil, dialError(c.DialErr, n, a)
 		})
 		if c.Route == "downstream" {
 			p.SetDownstreamProxy(&url.URL{Host: "downstream.c04.example:3128"})
@@ -1382,6 +1403,12 @@ func runUnreachable(r *vh.Run, c ucase) {
 		}
 		lis = l
 		dead := closedPort()
+		if c.DialErr != "" {
+			p.SetDial(func(n, a string) (net.Conn, error) {
+				atomic.AddInt32(&dials, 1)
+				return nil, dialError(c.DialErr, n, a)
+			})
+		}
 		if c.Route == "downstream" {
 			p.SetDownstreamProxy(&url.URL{Host: dead})
 		} else {
@@ -1434,7 +1461,11 @@ func runUnreachable(r *vh.Run, c ucase) {
 		} else if len(h.Get("Warning")) == 0 {
 			r.ViolationCase(c, sig, "502 without a Warning header", h)
 		} else {
-			r.Class("unreachable|" + c.Transport + "|" + c.Route + "|early=" + earlyBucket(c.Early))
+			de := c.DialErr
+			if de == "" {
+				de = "refused"
+			}
+			r.Class("unreachable|" + c.Transport + "|" + c.Route + "|" + de + "|early=" + earlyBucket(c.Early))
 			r.Count("unreachable_502_observed", 1)
 		}
 	}
@@ -1479,12 +1510,14 @@ func run(r *vh.Run, batch string) {
 		race = true
 	}
 	// unreachable targets first
-	for j := 0; j < 2; j++ {
+	kinds := []string{"", "timeout", "generic", "dns", "unreachable", "refused"}
+	for j := 0; j < 2*len(kinds); j++ {
 		tr := kind
 		if kind == "race" {
-			tr = []string{"pipe", "tcp"}[j]
+			tr = []string{"pipe", "tcp"}[j%2]
 		}
-		uc := ucase{Kind: "unreachable", Idx: k*2 + j, Transport: tr, Route: []string{"direct", "downstream"}[(k+j)%2]}
+		// every way of failing x both routes in every batch
+		uc := ucase{Kind: "unreachable", Idx: k*2*len(kinds) + j, Transport: tr, Route: []string{"direct", "downstream"}[j%2], DialErr: kinds[j/2]}
 		if (k+j)%3 == 0 {
 			uc.Early = 1 + (k*37+j*11)%5000
 		}
